@@ -6,7 +6,7 @@ use ohmc_core::uni::*;
 fn main() {
     let mut ctx = Ctx::from_args("C13");
     let quick = ctx.quick();
-    let tfs = all_tfs(2, &[0, 1, 2, 3, 4, 5, 6]);
+    let tfs = all_tfs(2, &[0, 1, 2, 3, 4, 5, 6, 7, 8]);
     let spec = if quick { Spec::open(2, 1, 2, 2, 2, 1, 1) } else { Spec::open(2, 2, 2, 2, 2, 1, 1) };
     let u = spec.universe();
     ctx.run_slice(Slice::new(format!("native[{} x {} functors]", spec.name(), tfs.len()), u.count(), |i, loc| {
